@@ -114,8 +114,13 @@ class Known:
     def __init__(self, prop):
         self.prop = prop
         self.open, self.fixed = [], []
-        path = os.path.join(ROOT, 'known_findings.json')
-        if os.path.exists(path):
+        paths = [os.path.join(ROOT, 'known_findings.json')]
+        kd = os.path.join(ROOT, 'known_findings.d')
+        if os.path.isdir(kd):
+            paths += [os.path.join(kd, fn) for fn in sorted(os.listdir(kd)) if fn.endswith('.json')]
+        for path in paths:
+            if not os.path.exists(path):
+                continue
             with open(path) as f:
                 data = json.load(f)
             for fd in data.get('findings', []):
